@@ -149,6 +149,10 @@ def _toy_mcmc(r):
             ],
         )
     ]
+    if r.get("coupled"):
+        # z | x: the blocks are no longer independent, so the gradient with respect to one depends on the other
+        spec[0]["distributions"].insert(4, scenes.dist("pc", "torch.distributions.Normal", "z",
+                                                       {"loc": {"id": "xc", "type": "ViewParameter", "parameter": "x", "indices": "0:1"}, "scale": [2.0]}))
     ops = []
     common = {}
     if r.get("disable_adaptation"):
@@ -164,9 +168,11 @@ def _toy_mcmc(r):
             ops.append(dict({"id": "op.s", "type": "ScalerOperator", "parameters": "s", "weight": 1.5, "scaler": 0.6}, **common))
         elif name == "dirichlet":
             ops.append(dict({"id": "op.f", "type": "DirichletOperator", "parameters": "f", "weight": 1.0, "scaler": 50.0}, **common))
+        elif name == "slidingz":
+            ops.append(dict({"id": "op.zz", "type": "SlidingWindowOperator", "parameters": "z", "weight": 2.0, "width": 0.5}, **common))
         elif name.startswith("hmc"):
-            hp = ["x", "z"]
-            n = dim + 2
+            hp = list(r.get("hmc_params") or ["x", "z"])
+            n = (dim if "x" in hp else 0) + (2 if "z" in hp else 0)
             mm = {"id": "hmc.mass", "type": "Parameter"}
             if "dense" in name:
                 mm["eye"] = n
